@@ -995,3 +995,37 @@ def fields_touched(B, adt):
                 if isinstance(e, dict) and e.get('adt') == adt and 'n' in e:
                     out.add(e['n'])
     return out
+
+
+# ------------------------------------------------------------ comparison shape ----
+CMP_NAMES = ('cmp', 'partial_cmp', 'eq', 'ne', 'lt', 'le', 'gt', 'ge', 'total_cmp')
+
+
+def comparator_calls(B):
+    """(bb, name, [canon of the two operands], where) for every two-operand comparison in B: comparator method calls,
+    the repo's compare_* helpers and primitive comparison operators"""
+    out = []
+    for bb, t in B.calls():
+        g, r = callee_of(t)
+        nm = (g or '').rsplit('::', 1)[-1]
+        if len(t['args']) >= 2 and (nm in CMP_NAMES or nm.startswith('compare_')):
+            out.append((bb, nm, [canon(B, t['args'][0]), canon(B, t['args'][1])]))
+    for bb, j, st in B.stmts():
+        if st['k'] == '=' and st['rv']['k'] == 'bin' and st['rv']['op'] in ('Eq', 'Ne', 'Lt', 'Le', 'Gt', 'Ge', 'Cmp'):
+            out.append((bb, st['rv']['op'], [canon(B, st['rv']['a']), canon(B, st['rv']['b'])]))
+    return out
+
+
+def check_self_compare(ctx, B, rule):
+    """A comparison whose two operands are the same value is constant: `a.f.cmp(&a.f)` where `a.f.cmp(&b.f)` was meant."""
+    n = 0
+    seen = {}
+    for bb, nm, (ca, cb) in comparator_calls(B):
+        n += 1
+        if ca[0] == 'const' or cb[0] == 'const':
+            continue
+        if ca == cb:
+            inst = uniq_key(seen, '%s:%s(%s)' % (B.path, nm, describe(B, ca)))
+            ctx.bad(rule, inst, 'compares %s with itself: the result is constant, so two values that differ in it are ordered/equated as if they did not' % describe(B, ca),
+                    ctx.where(B, bb), key='SELFCMP:%s' % inst)
+    return n
